@@ -871,6 +871,11 @@ func (o *FilterOptimizer) unionPrefixAndRange(prefix, srange *ScanType) *ScanTyp
 		if rend != nil && bytes.HasPrefix(rend, pstart) {
 			// | RS | PS | RE | PE
 			// just use RANGE scan from range start to end
+			if rstart == nil {
+				// open on both sides: every key, and a range without
+				// bounds is not understood by the other combinations
+				return &ScanType{FULL, nil}
+			}
 			return &ScanType{RANGE, [][]byte{rstart, nil}}
 		} else if rend == nil {
 			// | RS | PS | PE | RE$ |
